@@ -19,8 +19,7 @@ PROP = dict(
     modelled='ANSI parser control flow (ESC/CSI/DCS/OSC/APS/music framing, macros), caret primitives, limit_caret_pos, '
              'Buffer::print_char, margins, tab stops, buffer height/first visible line on a terminal buffer',
     not_modelled='cell contents (row lengths, Line::get_line_length is an oracle argument), palette/fonts/hyperlinks/sixel '
-                 'queue/music list; PETSCII, ATASCII, Viewdata, Mode 7: oracle only '
-                 '(exploration-supported, no theorem)',
+                 'queue/music list (none of them is read by a cursor computation)',
     assumptions=['HPA/HPR executed from inside a macro replay read the same line length as the invoking character (generator '
                  'does not put them into macro bodies)',
                  'a stream "requests a resize" iff CSI 8;h;w t is executed (flag `resized` in the model)'],
